@@ -449,7 +449,29 @@ func (r *runner) call(c, k, u, ptag string, a bool) { r.callVia("api", c, k, u, 
 // callVia performs one blocking client call through the given frontend and logs call/ret around it.
 //   api   the in-process Store interface            sasl  saslauthd unix socket (bundled Go client)
 //   http  JSON API with an admin session token       basic HTTP basic-auth      ldap  LDAP simple bind
+// httpOld: a password change over the HTTP API authorised by the user's current password (field
+// "oldpassword", tag in oldTag).  The handler makes two dispatcher calls - authenticate, then update - which
+// are logged as two client calls <c>.a and <c>.u.
+func (r *runner) httpOld(c, u, oldTag, newTag string) {
+	ca, cu := base("call"), base("call")
+	ca["c"], ca["k"], ca["u"], ca["p"], ca["via"] = c+".a", "auth", u, oldTag, "httpold"
+	cu["c"], cu["k"], cu["u"], cu["p"], cu["via"] = c+".u", "update", u, newTag, "httpold"
+	rec.add(ca)
+	rec.add(cu)
+	st, _ := r.post("/api/update", map[string]interface{}{"username": u, "oldpassword": r.sc.Passwords[oldTag], "newpassword": r.sc.Passwords[newTag]})
+	ra, ru := base("ret"), base("ret")
+	ra["c"], ra["k"], ra["ok"], ra["admknown"], ra["via"] = c+".a", "auth", st != 401 && st != 0, false, "httpold"
+	ru["c"], ru["k"], ru["ok"], ru["via"], ru["err"] = c+".u", "update", st == 200, "httpold", fmt.Sprintf("http %d policy?", st)
+	rec.add(ra)
+	rec.add(ru)
+}
+
 func (r *runner) callVia(via, c, k, u, ptag string, a bool) {
+	if via == "httpold" {
+		parts := strings.SplitN(ptag, ">", 2) // "oldtag>newtag"
+		r.httpOld(c, u, parts[0], parts[1])
+		return
+	}
 	m := base("call")
 	m["c"], m["k"], m["u"], m["p"], m["a"], m["via"] = c, k, u, ptag, a, via
 	rec.add(m)
